@@ -215,6 +215,8 @@ void ldb_versions_reuse_file_number(ldb_versions_t *vset, uint64_t n) { g_reuses
 int ldb_log_filename(char *buf, size_t size, const char *dbname, uint64_t num) { __CPROVER_assert(num == g_alloc_number, "new log file is named after the freshly allocated number"); return 1; }
 int ldb_truncfile_create(const char *filename, ldb_wfile_t **file) {
   int rc = nondet_int();
+  __CPROVER_assert(g_db->imm == NULL, "log switch starts only when no immutable memtable is pending (it would be overwritten and its unflushed data lost)");
+  __CPROVER_assert(g_l0_files < LDB_L0_STOP_WRITES_TRIGGER, "log switch (which produces another level-0 file) does not start while level 0 is full");
   g_create_calls++;
   if (rc != LDB_OK) return rc;
   g_create_ok++; *file = &g_logfile;
